@@ -395,6 +395,33 @@ CastleEpBuild(x, y) ==
   IN Park(c2, opp, side, cr, victim, 0, 1)
 
 (***************************************************************************)
+(* F_BATTERY: an enemy man on a line towards the king, backed by an enemy  *)
+(* slider behind it on the same line, and an own knight that can capture   *)
+(* the front man (the capture blocks the line again: it is LEGAL).         *)
+(***************************************************************************)
+BatteryCoarse == {<<k, a>> \in Sq \X (1..8) : RayLen(k, DirSeq[a]) >= 2}
+BatteryFine(x) ==
+  LET ray == RayTbl[x[1]][DirSeq[x[2]]] IN
+  {<<i, j, ft, nsq, side>> \in (1..6) \X (2..7) \X {N, B, R, Q, P} \X Sq \X {0, 1} :
+      i < j /\ j <= Len(ray) /\ nsq \in KnightSet[ray[i]] /\ nsq # x[1] /\ nsq \notin {ray[m] : m \in 1..j}}
+BatteryBuild(x, y) ==
+  LET k == x[1]  ray == RayTbl[k][DirSeq[x[2]]]  side == y[5]  opp == Other(side)
+      back == IF x[2] <= 4 THEN R ELSE B
+  IN IF y[3] = P /\ RankOf(ray[y[1]]) \in {0, 7} THEN MkPos(EmptyCells, side, 0, -1, 0, 1)
+     ELSE Park(Place(Place(Place(Place(EmptyCells, k, MkCell(side, K)), ray[y[1]], MkCell(opp, y[3])),
+                     ray[y[2]], MkCell(opp, back)), y[4], MkCell(side, N)), opp, side, 0, -1, 0, 1)
+
+(***************************************************************************)
+(* F_EDGEPAWN: an enemy pawn on the a- or h-file and the mover's king on   *)
+(* every square (whole-set shifts that forget a file mask wrap here).      *)
+(***************************************************************************)
+EdgePawnCoarse == {<<side, f>> \in {0, 1} \X {0, 7} : TRUE}
+EdgePawnFine(x) == {<<r, ksq>> \in (1..6) \X Sq : ksq # MkSq(x[2], r)}
+EdgePawnBuild(x, y) ==
+  LET side == x[1]  opp == Other(side) IN
+  Park(Place(Place(EmptyCells, MkSq(x[2], y[1]), MkCell(opp, P)), y[2], MkCell(side, K)), opp, side, 0, -1, 0, 1)
+
+(***************************************************************************)
 (* F_STALEMIN: a cornered king with NO legal move (stalemate or mate)      *)
 (* facing king + one minor piece or queen: forced outcomes that coincide   *)
 (* with insufficient material or with clock thresholds.                    *)
@@ -435,6 +462,7 @@ MultiBuild(x, y) ==
 (*   kind 6 a man of type c, colour = side to move, on square b (may attack the waiting king)      *)
 (*   kind 7 home squares e/a/h of colour a filled with every combination c of {empty, own rook,    *)
 (*          own king} (3^3), rights set b                                                          *)
+(*   kind 9 the king of colour a replaced by a king of the OTHER colour (two kings against none)   *)
 (*   kind 8 e.p. structure of skeleton 2/3 with a man of cell value b on the ORIGIN square of the  *)
 (*          double step (two ranks behind the marked pawn) or on the square passed over (c = 1)    *)
 (***************************************************************************)
@@ -449,7 +477,7 @@ Skeleton(i) ==
                                   28, MkCell(Black, P)), 27, MkCell(White, P)), 35, MkCell(White, P)), 36, MkCell(Black, P)),
                       Black, 0, 35, 0, 1)
 HomeSquares == <<-1, 0, 4, 7, 56, 60, 63>>
-RawCoarse == {<<i, k>> \in (1..3) \X (0..8) : TRUE}
+RawCoarse == {<<i, k>> \in (1..3) \X (0..9) : TRUE}
 RawFine(x) ==
   LET k == x[2] IN
   CASE k = 0 -> {<<a, b, 0>> : a \in {0, 1}, b \in Sq}
@@ -461,6 +489,7 @@ RawFine(x) ==
     [] k = 6 -> {<<0, b, c>> : b \in Sq, c \in {P, N, B, R, Q}}
     [] k = 7 -> {<<a, b, c>> : a \in {0, 1}, b \in 0..15, c \in 0..26}
     [] k = 8 -> {<<0, b, c>> : b \in 0..12, c \in {0, 1}}
+    [] k = 9 -> {<<a, b, 0>> : a \in {0, 1}, b \in {0, 1}}
 RECURSIVE AddKnights(_, _, _, _)
 AddKnights(c, color, n, q) ==
   IF n = 0 \/ q > 55 THEN c
@@ -485,22 +514,24 @@ RawBuild(x, y) ==
                     \* if no king was placed on the home squares, park one
                     c2 == IF \E q \in Sq : c1[q] = MkCell(col, K) THEN c1 ELSE ParkCells(c1, col)
                 IN [sk EXCEPT !.cells = c2, !.castling = y[2]]
+    [] k = 9 -> [sk EXCEPT !.cells = [q \in Sq |-> IF c[q] = MkCell(y[1], K) THEN MkCell(Other(y[1]), K) ELSE c[q]],
+                           !.side = y[2]]
     [] k = 8 -> IF sk.ep = -1 THEN sk
                 ELSE LET back == Shift(sk.ep, 0, (IF y[3] = 1 THEN 1 ELSE 2) * Fwd(sk.side)) IN
                      IF back = -1 \/ c[back] \in {MkCell(0, K), MkCell(1, K)} THEN sk
                      ELSE [sk EXCEPT !.cells = Place(c, back, y[2])]
 
-FamilyNames == {"EP", "EPEDGE", "ONLYEP", "PIN", "CASTLE", "PROMO", "MAT", "CHK", "AMBIG", "RAW", "MINOR", "MULTICHK", "ROOKCAP", "EPCHK", "STALEMIN", "EPX", "EPCHKX", "PINMATE", "DBLCHK", "DBLPIN", "ONLYDBL", "PROMOEP", "CASTLEEP"}
+FamilyNames == {"EP", "EPEDGE", "ONLYEP", "PIN", "CASTLE", "PROMO", "MAT", "CHK", "AMBIG", "RAW", "MINOR", "MULTICHK", "ROOKCAP", "EPCHK", "STALEMIN", "EPX", "EPCHKX", "PINMATE", "DBLCHK", "DBLPIN", "ONLYDBL", "PROMOEP", "CASTLEEP", "BATTERY", "EDGEPAWN"}
 Coarse(f) ==
   CASE f = "EP" -> EpCoarse [] f = "EPEDGE" -> EdgeCoarse [] f = "ONLYEP" -> OnlyEpCoarse
     [] f = "PIN" -> PinCoarse [] f = "CASTLE" -> CastleCoarse [] f = "PROMO" -> PromoCoarse
-    [] f = "MAT" -> MatCoarse [] f = "CHK" -> ChkCoarse [] f = "AMBIG" -> AmbigCoarse [] f = "RAW" -> RawCoarse [] f = "MINOR" -> MinorCoarse [] f = "MULTICHK" -> MultiCoarse [] f = "ROOKCAP" -> RookCapCoarse [] f = "EPCHK" -> EpChkCoarse [] f = "STALEMIN" -> StaleCoarse [] f = "EPX" -> EpCoarse [] f = "EPCHKX" -> EpChkCoarse [] f = "PINMATE" -> PinMateCoarse [] f = "DBLCHK" -> DblCoarse [] f = "DBLPIN" -> DblPinCoarse [] f = "ONLYDBL" -> OnlyDblCoarse [] f = "PROMOEP" -> PromoEpCoarse [] f = "CASTLEEP" -> CastleEpCoarse
+    [] f = "MAT" -> MatCoarse [] f = "CHK" -> ChkCoarse [] f = "AMBIG" -> AmbigCoarse [] f = "RAW" -> RawCoarse [] f = "MINOR" -> MinorCoarse [] f = "MULTICHK" -> MultiCoarse [] f = "ROOKCAP" -> RookCapCoarse [] f = "EPCHK" -> EpChkCoarse [] f = "STALEMIN" -> StaleCoarse [] f = "EPX" -> EpCoarse [] f = "EPCHKX" -> EpChkCoarse [] f = "PINMATE" -> PinMateCoarse [] f = "DBLCHK" -> DblCoarse [] f = "DBLPIN" -> DblPinCoarse [] f = "ONLYDBL" -> OnlyDblCoarse [] f = "PROMOEP" -> PromoEpCoarse [] f = "CASTLEEP" -> CastleEpCoarse [] f = "BATTERY" -> BatteryCoarse [] f = "EDGEPAWN" -> EdgePawnCoarse
 Fine(f, x) ==
   CASE f = "EP" -> EpFine(x) [] f = "EPEDGE" -> EdgeFine(x) [] f = "ONLYEP" -> OnlyEpFine(x)
     [] f = "PIN" -> PinFine(x) [] f = "CASTLE" -> CastleFine(x) [] f = "PROMO" -> PromoFine(x)
-    [] f = "MAT" -> MatFine(x) [] f = "CHK" -> ChkFine(x) [] f = "AMBIG" -> AmbigFine(x) [] f = "RAW" -> RawFine(x) [] f = "MINOR" -> MinorFine(x) [] f = "MULTICHK" -> MultiFine(x) [] f = "ROOKCAP" -> RookCapFine(x) [] f = "EPCHK" -> EpChkFine(x) [] f = "STALEMIN" -> StaleFine(x) [] f = "EPX" -> EpFine(x) [] f = "EPCHKX" -> EpChkFine(x) [] f = "PINMATE" -> PinMateFine(x) [] f = "DBLCHK" -> DblFine(x) [] f = "DBLPIN" -> DblPinFine(x) [] f = "ONLYDBL" -> OnlyDblFine(x) [] f = "PROMOEP" -> PromoEpFine(x) [] f = "CASTLEEP" -> CastleEpFine(x)
+    [] f = "MAT" -> MatFine(x) [] f = "CHK" -> ChkFine(x) [] f = "AMBIG" -> AmbigFine(x) [] f = "RAW" -> RawFine(x) [] f = "MINOR" -> MinorFine(x) [] f = "MULTICHK" -> MultiFine(x) [] f = "ROOKCAP" -> RookCapFine(x) [] f = "EPCHK" -> EpChkFine(x) [] f = "STALEMIN" -> StaleFine(x) [] f = "EPX" -> EpFine(x) [] f = "EPCHKX" -> EpChkFine(x) [] f = "PINMATE" -> PinMateFine(x) [] f = "DBLCHK" -> DblFine(x) [] f = "DBLPIN" -> DblPinFine(x) [] f = "ONLYDBL" -> OnlyDblFine(x) [] f = "PROMOEP" -> PromoEpFine(x) [] f = "CASTLEEP" -> CastleEpFine(x) [] f = "BATTERY" -> BatteryFine(x) [] f = "EDGEPAWN" -> EdgePawnFine(x)
 Build(f, x, y) ==
   CASE f = "EP" -> EpBuild(x, y) [] f = "EPEDGE" -> EdgeBuild(x, y) [] f = "ONLYEP" -> OnlyEpBuild(x, y)
     [] f = "PIN" -> PinBuild(x, y) [] f = "CASTLE" -> CastleBuild(x, y) [] f = "PROMO" -> PromoBuild(x, y)
-    [] f = "MAT" -> MatBuild(x, y) [] f = "CHK" -> ChkBuild(x, y) [] f = "AMBIG" -> AmbigBuild(x, y) [] f = "RAW" -> RawBuild(x, y) [] f = "MINOR" -> MinorBuild(x, y) [] f = "MULTICHK" -> MultiBuild(x, y) [] f = "ROOKCAP" -> RookCapBuild(x, y) [] f = "EPCHK" -> EpChkBuild(x, y) [] f = "STALEMIN" -> StaleBuild(x, y) [] f = "EPX" -> EpxBuild(x, y) [] f = "EPCHKX" -> EpChkxBuild(x, y) [] f = "PINMATE" -> PinMateBuild(x, y) [] f = "DBLCHK" -> DblBuild(x, y) [] f = "DBLPIN" -> DblPinBuild(x, y) [] f = "ONLYDBL" -> OnlyDblBuild(x, y) [] f = "PROMOEP" -> PromoEpBuild(x, y) [] f = "CASTLEEP" -> CastleEpBuild(x, y)
+    [] f = "MAT" -> MatBuild(x, y) [] f = "CHK" -> ChkBuild(x, y) [] f = "AMBIG" -> AmbigBuild(x, y) [] f = "RAW" -> RawBuild(x, y) [] f = "MINOR" -> MinorBuild(x, y) [] f = "MULTICHK" -> MultiBuild(x, y) [] f = "ROOKCAP" -> RookCapBuild(x, y) [] f = "EPCHK" -> EpChkBuild(x, y) [] f = "STALEMIN" -> StaleBuild(x, y) [] f = "EPX" -> EpxBuild(x, y) [] f = "EPCHKX" -> EpChkxBuild(x, y) [] f = "PINMATE" -> PinMateBuild(x, y) [] f = "DBLCHK" -> DblBuild(x, y) [] f = "DBLPIN" -> DblPinBuild(x, y) [] f = "ONLYDBL" -> OnlyDblBuild(x, y) [] f = "PROMOEP" -> PromoEpBuild(x, y) [] f = "CASTLEEP" -> CastleEpBuild(x, y) [] f = "BATTERY" -> BatteryBuild(x, y) [] f = "EDGEPAWN" -> EdgePawnBuild(x, y)
 =============================================================================
